@@ -610,6 +610,8 @@ class Fn:
                 aty = self.local_ty(cs.args[0]["place"]["local"])["s"]
             v = "Some" if aty.startswith("std::option::Option") else "Ok"
             return self._op_origins(cs.args[0], (("variant", v), ("field", 0)) + tuple(steps[2:]), visiting)
+        if p == "std::ops::FromResidual::from_residual" and steps and steps[0] in (("variant", "Ok"), ("variant", "Some")):
+            return set()        # a residual is never the success variant
         if p == "std::ops::Try::branch" and cs.args and len(steps) >= 4 and steps[:4] == (("variant", "Break"), ("field", 0), ("variant", "Err"), ("field", 0)):
             # the residual of `x?` carries x's Err payload
             return self._op_origins(cs.args[0], (("variant", "Err"), ("field", 0)) + tuple(steps[4:]), visiting)
